@@ -28,6 +28,58 @@ bool integerFitsKeyword(fitsfile* fits, const char* key, uint32_t& result){
 	return (true);
 }
 	
+int moveToImageExtension(fitsfile* fits, const char* name, int* status){
+	if (*status != 0)
+		return (*status);
+	int start = 1;
+	fits_get_hdu_num(fits, &start);
+	fits_write_errmark();
+	LONGLONG prevstart = -1;
+	for (int hdu = 1; ; hdu++) {
+		int type = 0;
+		if (fits_movabs_hdu(fits, hdu, &type, status)) {
+			//failing to read the file is an error; anything else means that
+			//there are no more HDUs, as it does for fits_movnam_hdu
+			if (*status != READ_ERROR && *status != SEEK_ERROR
+			    && *status != MEMORY_ALLOCATION) {
+				int tstatus = 0;
+				fits_clear_errmark();
+				fits_movabs_hdu(fits, start, &type, &tstatus);
+				*status = BAD_HDU_NUM;
+			}
+			return (*status);
+		}
+		//CFITSIO derives the position of the next HDU from the header of
+		//this one without insisting on a non-negative size (GCOUNT and
+		//PCOUNT may be negative); a data unit which ends before it starts
+		//would send the search back to an HDU it has already seen, for ever
+		LONGLONG headstart = 0, datastart = 0, dataend = 0;
+		if (fits_get_hduaddrll(fits, &headstart, &datastart, &dataend, status))
+			return (*status);
+		if (headstart <= prevstart || datastart <= headstart || dataend < datastart)
+			return (*status = BAD_GCOUNT);
+		prevstart = headstart;
+		if (hdu == 1 || type != IMAGE_HDU)
+			continue;
+		char extname[FLEN_VALUE];
+		int tstatus = 0;
+		if (fits_read_key(fits, TSTRING, "EXTNAME", extname, NULL, &tstatus)) {
+			if (tstatus == KEY_NO_EXIST || tstatus == VALUE_UNDEFINED) {
+				fits_clear_errmark();
+				fits_write_errmark();
+				continue;
+			}
+			return (*status = tstatus);
+		}
+		int match = 0, exact = 0;
+		fits_compare_str(const_cast<char*>(name), extname, CASEINSEN, &match, &exact);
+		if (match) {
+			fits_clear_errmark();
+			return (*status = 0);
+		}
+	}
+}
+
 std::vector<uint32_t> readOrder(fitsfile* fits, uint32_t ndim){
 	int error = 0;
 	if (ndim == 0) //nothing to store an order in
